@@ -8,8 +8,9 @@ S (oracle, independent of M): constraint violations raise ValueError and leave t
 by a history ending with `initialisation()` equals a directly constructed one (`__dict__`, `levy_exponent`, `nu.integrate`,
 COS price); `calibrate_model_parameter`, `calibrate_model_parameter_to_atm_call`, `run_default_calibration`: value inside
 the interval, repricing within 1e-6, same model type, input untouched; ValueError exactly when the target is unreachable.
-Generated (ProofsGen/C20Table): `default_calibration`, constructor arguments, acceptance pattern of every setter and the
-attributes rewritten by `initialisation()` are measured on the running code and re-checked by `lake build`.
+Generated (ProofsGen/C20Table): `default_calibration`, constructor arguments, acceptance pattern of every setter, the
+attributes rewritten by `initialisation()` and the pricer / target configuration used inside the calibration objective are
+measured on the running code and re-checked by `lake build` (objective_is_repricing_function).
 """
 from __future__ import annotations
 
@@ -47,14 +48,21 @@ RULE = ("histories: 5 Parameters classes x start values x 4..14 operations drawn
         "end by re-assigning every primary inside the documented box of harness/zoo.py followed by initialisation() and feed "
         "the rebuilt-vs-direct oracle; calibration: 4 families x (defaults + zoo.draw_params incl. every CGMY activity branch) "
         "x maturity in [0.25, 2] x bs_sigma in [0.1, 0.4] x spot/r/d draws, plus products with other strikes / puts priced at a "
-        "hidden parameter value, plus unreachable targets. non-trivial = history with >= 1 accepted assignment and >= 1 "
+        "hidden parameter value, plus unreachable targets; every third model rebuilt through zoo.reinitialised, every fifth calibration "
+        "repeated on the same object; edge models (zero jump intensity with the volatility as calibrated parameter = Black-Scholes limit "
+        "where the answer must be bs_sigma itself, HEM p = 1); two models of different families calibrated alternately (A, B, A', B, A) "
+        "and a returned model calibrated again. non-trivial = history with >= 1 accepted assignment and >= 1 "
         "initialisation, or a calibration whose reachability was decided by the sign of the objective at both interval ends; "
         "distinct = distinct (class, start, operations) / (family, parameters, product, target)")
 NOT_PROVED = [
     "calibrate_contract is a theorem about the model's `calibrate` UNDER the root finder's contract (returned x lies in [a,b], "
     "the objective was evaluated there and |f(x)| <= tol); scipy.optimize.brentq itself is trusted and only oracle-checked (repricing within 1e-6)",
-    "the COS price as a function of the parameters (`price : Dict -> Rat` is abstract in M); existence of a root / reachability "
-    "is decided numerically by the sign of the objective at the interval ends",
+    "the COS price as a function of the parameters and of the pricer configuration (`priceWith : PriceCfg -> Dict -> Rat` and "
+    "`bsPrice : TargetCfg -> Rat` are abstract in M).  WHICH configuration the objective uses (n, l of the COSPricer, spot / r / d of the "
+    "model it prices, strike, maturity, payoff) and which Black-Scholes target it evaluates are measured on the running code and the generated "
+    "obligation objective_is_repricing_function re-checks at build time that they are the user's default pricer configuration and the "
+    "requested target; calibrate_reprices_target / measured_calibration_reprices then give repricing under the user's pricer from the root "
+    "finder's contract.  Existence of a root / reachability is decided numerically by the sign of the objective at the interval ends",
     "Gamma, power and sqrt inside the cached CGMY / VG attributes are abstract functions of M (`Irr`); their values are taken from "
     "scipy / numpy at the arguments M asks for",
     "rebuilt-vs-direct equality of levy_exponent / nu.integrate / COS price is oracle-checked; the theorem rebuilt_eq_direct is about the parameter object",
@@ -70,6 +78,7 @@ TRUSTED = ["scipy.optimize.brentq", "scipy.special.gamma, numpy.power, numpy.sqr
            "rpylib COSPricer as the pricing function of the oracle (its correctness is C18's subject)"]
 
 warnings.filterwarnings("ignore", category=RuntimeWarning)
+warnings.filterwarnings("ignore", message="'where' used without 'out'")
 
 CLASSES = {
     "bs": (BlackScholesParameters, ["sigma"], BlackScholesModel, ModelType.BLACKSCHOLES),
@@ -141,9 +150,90 @@ def measure():
     return dict(table=table, ctor=ctor, derived=derived, accept=accept)
 
 
+PROBE_CAL = dict(spot=80.0, r=0.03, d=0.01, maturity=0.5, bs_sigma=0.2)
+
+
+def measure_objective():
+    """what the calibration code actually prices with: every COSPricer built and every pricing call made inside
+    run_default_calibration (number of terms n, cut-off l, the spot / r / d of the model it prices, strike, maturity, payoff)
+    and every Black–Scholes closed-form target it evaluates (spot, r, d, strike, maturity, sigma), recorded by subclassing
+    the two classes `rpylib.model.utils` binds; next to it the configuration of a user's `COSPricer(model)` (defaults) for
+    the ATM call and the requested target.  One row per calibratable family, for a model with r != 0, d != 0, spot != 1."""
+    rows = []
+    base_cos, base_cf = mu.COSPricer, mu.CFBlackScholes
+    for fam in zoo.FAMILIES:
+        cls, prims, expcls, mt = CLASSES[fam]
+        pc = PROBE_CAL
+        model = expcls(spot=pc["spot"], r=pc["r"], d=pc["d"], parameters=cls(**DEFAULTS[fam]))
+        seen_obj, seen_tgt = [], []
+
+        def payoff_code(product):
+            pay = product.payoff
+            if isinstance(pay, Vanilla):
+                return 1.0 if pay.payoff_type == PayoffType.CALL else -1.0
+            return 0.0
+
+        class RecCOS(base_cos):
+            def _note(self, strike, maturity, code):
+                m = self.model
+                row = [float(self.n), float(self.l), float(m.spot), float(m.r), float(m.d), float(np.asarray(strike).reshape(-1)[0]),
+                       float(maturity), code]
+                if row not in seen_obj:
+                    seen_obj.append(row)
+
+            _inside = False
+
+            def price(self, product):
+                self._note(product.payoff.strike, product.maturity, payoff_code(product))
+                self._inside = True
+                try:
+                    return base_cos.price(self, product)
+                finally:
+                    self._inside = False
+
+            def call(self, strikes, time):
+                if not self._inside:
+                    self._note(strikes, time, 1.0)
+                return base_cos.call(self, strikes, time)
+
+            def put(self, strikes, time):
+                if not self._inside:
+                    self._note(strikes, time, -1.0)
+                saved, self._inside = self._inside, True
+                try:
+                    return base_cos.put(self, strikes, time)
+                finally:
+                    self._inside = saved
+
+        class RecCF(base_cf):
+            def call(self, strike, maturity):
+                b = self.bs_model
+                row = [float(b.spot), float(b.r), float(b.d), float(strike), float(maturity), float(b.parameters.sigma)]
+                if row not in seen_tgt:
+                    seen_tgt.append(row)
+                return base_cf.call(self, strike, maturity)
+
+        mu.COSPricer, mu.CFBlackScholes = RecCOS, RecCF
+        try:
+            with np.errstate(all="ignore"), warnings.catch_warnings():
+                warnings.simplefilter("ignore")
+                try:
+                    mu.run_default_calibration(model, maturity=pc["maturity"], bs_sigma=pc["bs_sigma"])
+                except ValueError:
+                    pass                          # an unreachable target still shows which configuration was used
+        finally:
+            mu.COSPricer, mu.CFBlackScholes = base_cos, base_cf
+        user = COSPricer(model)
+        user_cfg = [float(user.n), float(user.l), pc["spot"], pc["r"], pc["d"], pc["spot"], pc["maturity"], 1.0]
+        requested = [pc["spot"], pc["r"], pc["d"], pc["spot"], pc["maturity"], pc["bs_sigma"]]
+        rows.append((mt.name, seen_obj, user_cfg, seen_tgt, requested))
+    return rows
+
+
 def generate_lean(ctx):
     try:
         m = measure()
+        m["objective"] = measure_objective()
     except Exception as e:
         ctx.fail("proof", "c20.generated_obligation", {}, {"name": "measurement of the default table / derived attributes failed",
                                                           "error": repr(e)[:400]})
@@ -154,21 +244,31 @@ def generate_lean(ctx):
     ctor = ", ".join(f"({s(c)}, [{', '.join(s(x) for x in l)}])" for c, l in m["ctor"])
     acc = ",\n  ".join(f"({s(c)}, {s(n)}, [{', '.join(f'({_ratlit(v)}, {str(b).lower()})' for v, b in row)}])"
                        for c, n, row in m["accept"])
+    rl = lambda xs: "[" + ", ".join(_ratlit(x) for x in xs) + "]"
+    rll = lambda xss: "[" + ", ".join(rl(xs) for xs in xss) + "]"
+    obj = ",\n  ".join(f"({s(a)}, {rll(o)}, {rl(u)}, {rll(t)}, {rl(q)})" for a, o, u, t, q in m["objective"])
     text = f"""/- GENERATED by harness/props/c20.py from measurements on the running implementation — do not edit by hand.
    defaultCalibration: rpylib.model.utils.default_calibration (model type, parameter, interval as the exact rationals of the floats);
    ctorArgs: constructor signature of every Parameters class; derivedAttrs: attributes whose value changed across
-   `initialisation()` after every primary was re-assigned; acceptance: does `obj.<name> = v` store v (true) or raise ValueError. -/
+   `initialisation()` after every primary was re-assigned; acceptance: does `obj.<name> = v` store v (true) or raise ValueError;
+   calibrationConfigs: per family, for run_default_calibration of a model with spot 80, r 0.03, d 0.01, maturity 0.5, bs_sigma 0.2:
+   the distinct configurations [n, l, spot, r, d, strike, maturity, payoff] of the COS pricing calls made inside the objective,
+   the configuration of a user's default `COSPricer(model)` for the ATM call, the distinct configurations
+   [spot, r, d, strike, maturity, sigma] of the Black–Scholes closed-form targets the code evaluated, the requested target. -/
 namespace Rpylib.Generated.C20
 def defaultCalibration : List (String × String × Rat × Rat) := [{rows}]
 def ctorArgs : List (String × List String) := [{ctor}]
 def derivedAttrs : List (String × List String) := [{der}]
 def acceptance : List (String × String × List (Rat × Bool)) := [
   {acc}]
+def calibrationConfigs : List (String × List (List Rat) × List Rat × List (List Rat) × List Rat) := [
+  {obj}]
 end Rpylib.Generated.C20
 """
     if not GEN_FILE.exists() or GEN_FILE.read_text() != text:
         GEN_FILE.write_text(text)
-    return {"default_calibration": [list(r) for r in m["table"]], "derived": m["derived"], "ctor": m["ctor"]}
+    return {"default_calibration": [list(r) for r in m["table"]], "derived": m["derived"], "ctor": m["ctor"],
+            "objective_configurations": [list(r) for r in m["objective"]]}
 
 
 # ------------------------------------------------------------------------------------------------------- M interface
@@ -523,6 +623,9 @@ def calibration_probe(ctx, c):
     desc = c
     cls_ = dict(stream="calibration", family=fam, mode=c["mode"])
     model = expcls(spot=spot, r=r, d=d, parameters=cls(**params))
+    if c.get("reinit"):
+        # construction history: the same model rebuilt through an edited and re-initialised parameter object
+        model = zoo.reinitialised(model, fam, params)
     snap = copy.deepcopy(model.levy_model.parameters.__dict__)
     snap_model = (model.spot, model.r, model.d, model.omega, model.levy_triplet.a, model.levy_triplet.sigma)
     if c["mode"] == "product":
@@ -593,6 +696,28 @@ def calibration_probe(ctx, c):
         ctx.fail("oracle", "c20.calibrate.reprices", desc, {"x": x, "repriced": re, "market": market, "residual": re - market}, cls=cls_)
         return
     ctx.notes_resid = max(getattr(ctx, "notes_resid", 0.0), abs(re - market))
+    if c.get("bs_limit"):
+        # edge of the parameter range: zero jump intensity, calibrated parameter = the diffusion volatility: the model IS
+        # Black–Scholes, so the value that reprices the Black–Scholes target is the requested volatility itself
+        ctx.branches["c20.calibrate:bs_limit"] += 1
+        if not abs(x - c["bs_sigma"]) <= 1e-6:
+            ctx.fail("oracle", "c20.calibrate.reprices", desc, {"what": "zero-intensity model calibrated to a Black-Scholes target: the calibrated "
+                                                                        "volatility differs from the requested one", "x": x, "bs_sigma": c["bs_sigma"]}, cls=cls_)
+            return
+    if c.get("repeat"):
+        # object reuse: the same call on the same (untouched) model object must give the same answer again
+        first = x
+        try:
+            with np.errstate(all="ignore"):
+                call()
+            again = float(result["x"])
+        except Exception as e:
+            again = repr(e)[:200]
+        ctx.branches["c20.calibrate:repeat"] += 1
+        if not (isinstance(again, float) and abs(again - first) <= 1e-12 * max(1.0, abs(first))):
+            ctx.fail("oracle", "c20.calibrate.history", desc, {"what": "second identical calibration call on the same model object differs from the first",
+                                                               "first": first, "second": again}, cls=cls_)
+            return
     if c["mode"] == "default":
         cm_ = result["model"]
         what = None
@@ -626,6 +751,59 @@ def calibration_probe(ctx, c):
             if not _same_dict(direct.__dict__, cm_.levy_model.parameters.__dict__):
                 ctx.fail("oracle", "c20.calibrate.default_model", desc, {"what": "parameters of the returned model differ from a direct construction with the same primaries",
                                                                         "returned": repr(cm_.levy_model.parameters.__dict__), "direct": repr(direct.__dict__)}, cls=cls_)
+
+
+def _default_x(model, T, bs_sigma):
+    try:
+        with np.errstate(all="ignore"):
+            m2 = mu.run_default_calibration(model, maturity=T, bs_sigma=bs_sigma)
+        return m2
+    except ValueError:
+        return None
+
+
+def interleaved_probe(ctx, cA, cB):
+    """several objects in one process / object history: model A and model B (other family) are calibrated alternately
+    (A, B, A with another target, B, A with the first target again); every returned model must reprice ITS target with a fresh
+    default pricer, A's first and last answers must coincide, and a model returned by a calibration, calibrated again to the
+    same target, must still reprice it"""
+    desc = dict(kind="interleaved", A=cA, B=cB)
+    cls_ = dict(stream="calibration", family=cA["fam"], mode="interleaved")
+    ctx.count("c20.calibrate.interleaved", desc, nontrivial=True, branch=cA["fam"] + "+" + cB["fam"])
+    built = {}
+    for tag, c in (("A", cA), ("B", cB)):
+        cls, prims, expcls, mt = CLASSES[c["fam"]]
+        built[tag] = expcls(spot=c["spot"], r=c["r"], d=c["d"], parameters=cls(**full_params(c["fam"], c["params"])))
+    plan = [("A", cA["bs_sigma"]), ("B", cB["bs_sigma"]), ("A", cA["bs_sigma2"]), ("B", cB["bs_sigma"]), ("A", cA["bs_sigma"])]
+    answers = []
+    for tag, sig in plan:
+        c = cA if tag == "A" else cB
+        m2 = _default_x(built[tag], c["maturity"], sig)
+        name = mu.default_calibration[CLASSES[c["fam"]][3]].parameter
+        answers.append((tag, sig, None if m2 is None else float(getattr(m2.levy_model.parameters, name))))
+        if m2 is None:
+            continue
+        product = Product(payoff_underlying=Spot(), payoff=Vanilla(strike=c["spot"], payoff_type=PayoffType.CALL), maturity=c["maturity"])
+        market = bs_call(c["spot"], c["spot"], c["r"], c["d"], sig, c["maturity"])
+        own = float(np.asarray(COSPricer(m2).price(product=product)).item())
+        if not abs(own - market) <= 1e-6:
+            ctx.fail("oracle", "c20.calibrate.default_model", desc, {"what": f"model {tag} returned by the calibration to sigma={sig} prices the ATM call at {own}, "
+                                                                            f"Black-Scholes target {market}", "answers": answers}, cls=cls_)
+            return
+        if tag == "A" and len(answers) == 1:
+            # the returned model calibrated again to the same target
+            m3 = _default_x(m2, c["maturity"], sig)
+            own3 = None if m3 is None else float(np.asarray(COSPricer(m3).price(product=product)).item())
+            if own3 is None or not abs(own3 - market) <= 1e-6:
+                ctx.fail("oracle", "c20.calibrate.history", desc, {"what": "a model returned by the calibration, calibrated again to the same target, does not reprice it",
+                                                                   "price": own3, "market": market}, cls=cls_)
+                return
+    a_first, a_last = answers[0][2], answers[4][2]
+    b_first, b_second = answers[1][2], answers[3][2]
+    same_ = lambda u, v: (u is None and v is None) or (u is not None and v is not None and abs(u - v) <= 1e-12 * max(1.0, abs(u)))
+    if not same_(a_first, a_last) or not same_(b_first, b_second):
+        ctx.fail("oracle", "c20.calibrate.history", desc, {"what": "the same calibration of the same untouched model object gives another answer after other "
+                                                                   "calibrations ran in between", "answers": answers}, cls=cls_)
 
 
 def draw_calibration(rng, fam, params, mode):
@@ -674,7 +852,31 @@ def run(ctx):
         stream = zoo.model_stream(rng, ncal, families=[fam])
         for j, (_f, params) in enumerate(stream):
             mode = ["default", "default", "atm", "product"][j % 4]
-            calibration_probe(ctx, draw_calibration(rng, fam, params, mode))
+            c = draw_calibration(rng, fam, params, mode)
+            if j % 3 == 1:
+                c["reinit"] = True          # construction history (zoo.reinitialised)
+            if j % 5 == 2:
+                c["repeat"] = True          # object reuse
+            calibration_probe(ctx, c)
+    # edge of the declared ranges: zero jump intensity with the diffusion volatility as calibrated parameter (Black–Scholes limit),
+    # HEM p = 1, CGMY activity exactly 0 / 1
+    for _ in range(ctx.n(2, 8)):
+        for fam, extra, par in (("hem", dict(intensity=0.0), None), ("merton", dict(intensity=0.0), ("sigma", [0.0, 1.0])),
+                                ("hem", dict(p=1.0), None)):
+            c = draw_calibration(rng, fam, dict(zoo.draw_params(rng, fam), **extra), "atm")
+            c.pop("parameter", None), c.pop("interval", None)
+            if par:
+                c["parameter"], c["interval"] = par[0], par[1]
+            if extra.get("intensity") == 0.0:
+                c["bs_limit"] = True
+            calibration_probe(ctx, c)
+    fams = list(zoo.FAMILIES)
+    for i in range(ctx.n(3, 12)):
+        fa, fb = fams[i % 4], fams[(i + 1 + i // 4) % 4]
+        cA = draw_calibration(rng, fa, zoo.draw_params(rng, fa), "default")
+        cB = draw_calibration(rng, fb, zoo.draw_params(rng, fb), "default")
+        cA["bs_sigma2"] = round(rng.uniform(0.1, 0.4), 3)
+        interleaved_probe(ctx, cA, cB)
     if getattr(ctx, "notes_resid", None) is not None:
         ctx.notes.append(f"largest repricing residual of a successful calibration in this run: {ctx.notes_resid:.3e}")
 
@@ -682,7 +884,9 @@ def run(ctx):
 def replay(ctx, rec):
     d = rec["input"]
     p = rec.get("probe", "")
-    if "ops" in d:
+    if d.get("kind") == "interleaved":
+        interleaved_probe(ctx, d["A"], d["B"])
+    elif "ops" in d:
         history_probe(ctx, d, with_model=True)
     elif "mode" in d:
         calibration_probe(ctx, d)
